@@ -80,7 +80,7 @@ def native_replay(u: Unit, inputs, outdir):
     src = os.path.join(VERIF, u.replay)
     cmd = ["gcc", "-g", "-O0", "-w", "-DVP_REPLAY", "-fsanitize=address,undefined", "-fno-sanitize-recover=undefined"] + core.base_cflags() + \
           ["-D" + x for x in u.defines] + [src, os.path.join(VERIF, "stubs", "vp_replay.c")] + \
-          [os.path.join(REPO, s) for s in u.replay_srcs] + ["-o", exe, "-lglib-2.0", "-lpthread", "-lyaml"]
+          [os.path.join(REPO, s) for s in u.replay_srcs] + ["-o", exe, "-Wl,--unresolved-symbols=ignore-all", "-lglib-2.0", "-lpthread", "-lyaml"]
     p = subprocess.run(cmd, capture_output=True, text=True)
     if p.returncode != 0:
         return {"built": False, "error": (p.stdout + p.stderr)[-1500:]}
@@ -182,7 +182,8 @@ def check(prop, tier, props_meta):
                 else:
                     unknown.append(o)
             if unknown:
-                tgt = ([o for o in unknown if o.klass == "property"] or unknown)[0]
+                tgt = ([o for o in unknown if o.klass == "property" and re.match(r"C\d\d\.", o.desc)] or
+                       [o for o in unknown if o.klass == "property"] or unknown)[0]
                 native = None
                 if r.trace and u.replay:
                     native = native_replay(u, core.inputs_from_trace(r.trace), os.path.join(core.unit_dir(u), "native"))
